@@ -315,13 +315,15 @@ pub fn exec_heap(m: &HashMap<String, String>) -> String {
         "clear" => h.clear(),
         _ => {}
     }
+    let cms_cell: usize = h.verif_cms_mut().verif_table()[0] as usize;
     let (mut mp, tr) = h.verif_parts();
     mp.sort();
     let it: Vec<u64> = h.iter().collect();
     let f = |v: &Vec<(u64, usize)>| v.iter().map(|(a, b)| format!("[{},{}]", a, b)).collect::<Vec<_>>().join(",");
     format!(
-        "{{\"result\":{},\"map\":[{}],\"tree\":[{}],\"iter\":{},\"is_empty\":{},\"k\":{},\"debug_assertions\":{}}}",
+        "{{\"result\":{},\"cms_cell\":{},\"map\":[{}],\"tree\":[{}],\"iter\":{},\"is_empty\":{},\"k\":{},\"debug_assertions\":{}}}",
         result,
+        cms_cell,
         f(&mp),
         f(&tr),
         json_list(&it),
